@@ -5,7 +5,7 @@ from ..ref import P, L, to32, le
 
 REQUIRED = ['dec:valid', 'dec:noncanon-s+p', 'dec:bit255', 'dec:negative-s', 'dec:reject-nonsquare', 'dec:reject-negt',
             'dec:accept', 'dec:reject', 'rep:coset', 'map:corner', 'map:random', 'batch:n=0', 'batch:n=1', 'batch:torsion',
-            'order', 'history', 'distinct']
+            'order', 'history', 'distinct', 'identity-reps']
 
 
 def B(x):
@@ -90,6 +90,26 @@ def representatives(ctx, n):
             r2 = ctx.add('rs.add', ctx.ref(r1, 1), toks[1], expect=pts.expect_rs(ref.IDENT), cls='order')
             ctx.add('rs.eq', ctx.ref(r2, 1), 'I', expect=['T', 'T', 'T'], cls='order')
             ctx.block()
+
+
+def identity_representatives(ctx):
+    """all representatives of the identity element (E[4]) in plain and scaled form compare equal to each other and to
+    identity() / default(), and encode as zero"""
+    rng = ctx.rng
+    z = to32(0).hex()
+    reps = ['e' + vals.Pt(0, j).tok() for j in (0, 2, 4, 6)] + ['I']
+    ctx.block()
+    # scaled representatives (Z != 1): P - decode(encode(P)) and (l-1)Q + Q land on arbitrary E[4] representatives
+    for _ in range(6):
+        p = vals.Pt(rng.randrange(1, L), rng.choice([0, 2, 4, 6]))
+        r1 = ctx.add('rs.id', 'e' + p.tok(), expect=pts.expect_rs(p.affine()), cls='identity-reps')
+        r2 = ctx.add('rs.decompress', ctx.ref(r1, 0), expect=pts.expect_rs(p.affine()), cls='identity-reps')
+        r3 = ctx.add('rs.sub', 'e' + p.tok(), ctx.ref(r2, 1), expect=pts.both(pts.expect_rs(ref.IDENT), pts.tok_is(0, z)), cls='identity-reps')
+        reps.append(ctx.ref(r3, 1))
+    for a_ in reps:
+        for b_ in reps:
+            ctx.add('rs.eq', a_, b_, expect=['T', 'T', 'T'], cls='identity-reps')
+    ctx.block()
 
 
 def one_way_map(ctx, n):
@@ -223,6 +243,7 @@ def make(seed, size):
     decoder_sweep(ctx, 40 + size)
     representatives(ctx, max(4, size // 5))
     one_way_map(ctx, max(8, size // 4))
+    identity_representatives(ctx)
     batch(ctx, max(4, size // 10))
     histories(ctx, max(2, size // 40), 40)
     consts(ctx)
